@@ -1748,6 +1748,10 @@ class _Literals(ast.NodeTransformer):
             return ast.copy_location(ast.Lambda(
                 ast.arguments(posonlyargs=[], args=[ast.arg("x")], kwonlyargs=[], kw_defaults=[], defaults=[]),
                 ast.Subscript(ast.Name("x", ast.Load()), node.args[0], ast.Load())), node)
+        # getattr(x, 'name') with a literal identifier -> x.name
+        if isinstance(f, ast.Name) and f.id == "getattr" and len(node.args) == 2 and not node.keywords and isinstance(node.args[1], ast.Constant) \
+                and isinstance(node.args[1].value, str) and node.args[1].value.isidentifier():
+            return ast.copy_location(ast.Attribute(node.args[0], node.args[1].value, ast.Load()), node)
         # dict.fromkeys(X) / dict.fromkeys(X, K) with a constant K -> {k_: K for k_ in X}
         if isinstance(f, ast.Attribute) and f.attr == "fromkeys" and isinstance(f.value, ast.Name) and f.value.id == "dict" \
                 and len(node.args) in (1, 2) and not node.keywords and (len(node.args) == 1 or isinstance(node.args[1], ast.Constant)):
